@@ -73,7 +73,7 @@ def c16_extra(cases, verdicts):
 
 PROP = dict(
     proof_modules=["VrpProofs.C16", "VrpProofs.C16.Basic", "VrpProofs.C16.Search", "VrpProofs.C16.Aware", "VrpProofs.C16.Spec",
-                   "VrpProofs.C16.Builder", "VrpProofs.C16.Provider", "VrpProofs.C16.Reader"], model_modules=["VrpModel.C16"], drv="drv_c16", bin="c16",
+                   "VrpProofs.C16.Builder", "VrpProofs.C16.Provider", "VrpProofs.C16.Reader", "VrpProofs.C16.Accepts"], model_modules=["VrpModel.C16"], drv="drv_c16", bin="c16",
     compare=c16_compare, nontrivial=c16_nontrivial, extra_evidence=c16_extra,
     rule="core/prag: a rejected set (one inconsistency class per case) or an accepted set with at least two matrices, "
          "non-constant entries and at least two queries (asymmetric, multi-profile and/or multi-timestamp); simple: more "
@@ -82,15 +82,16 @@ PROP = dict(
              "TimeAwareMatrixTransportCost (grouping, stable sort on the u64-truncated timestamp, bracket search, "
              "interpolation formula, fallback, scale, *_approx at t = 0), SimpleTransportCost, fleet_reader::"
              "create_transport_costs (name -> index with the positional fallback, error codes -> -1, every error), "
-             "read_fleet's Profile, validation E1500/E1501/E1503/E1504/E1505, scientific CoordIndex::collect + "
-             "create_transport(rounded)",
+             "read_fleet's Profile, validation E1500/E1501/E1503/E1504/E1505, the index CoordIndex gives to a location of "
+             "custom type unknown + UnknownLocationFallback (zero), scientific CoordIndex::collect + create_transport(rounded)",
     traced="coordinate approximation (create_approx_matrices: haversine) and the unrounded Euclidean matrix: symmetry, "
            "zero diagonal, non-negativity, duration = distance/speed up to rounding, closeness to the exact square root "
            "are evaluated on the real output; the provider read_pragmatic builds from the approximation is compared "
            "with the reader model applied to the approximated matrices",
     out_of_model="f64 rounding (inputs are generated so that every f64 operation of the providers is exact; haversine "
-                 "is evaluated by the real code only), DynamicTransportCost (reserved times), the unknown-location "
-                 "fallback of coord_index/location_fallback, job-index construction inside read_pragmatic",
+                 "is evaluated by the real code only; a replica run over 2*10^6 pairs showed 5.7% last-bit asymmetries before "
+                 "rounding and none after), DynamicTransportCost (reserved times), job-index construction inside read_pragmatic "
+                 "(where the D1 witnesses panic)",
     assumptions=[
         "matrix entries and matrix timestamps are integers below 2^21, query times and scales are dyadic rationals, "
         "interpolation ratios are short dyadic numbers: every f64 operation of the code is then exact (asserted: "
@@ -98,7 +99,9 @@ PROP = dict(
         "slice::binary_search is modelled by its contract on strictly increasing keys",
         "hypotheses made explicit by the theorems and excluded from the oracles (dev-tagged, in_hyp=false streams, "
         "run on the real code and summarised under deviation_classes_observed): S28 unknown matrix profile name, "
-        "D1 matrix length that is not a square number, D2 two matrices of one profile with the same u64 timestamp key",
+        "D1 matrix length that is not a square number (incl. errorCodes of another length than the matrix), D2 two matrices "
+        "of one profile with the same u64 timestamp key, D3 unknown-type location together with matrix indices that skip a "
+        "value (its index then lies inside the matrix)",
     ],
 )
 
@@ -108,8 +111,8 @@ META = dict(
          "the vehicle's scale, distance unscaled, identically for every vehicle of the profile; an accepted time-aware set "
          "answers with the matrix whose (truncated) timestamp equals the query's, with the first / last matrix outside the span, "
          "and in between with the left matrix' distance and the straight line through the two bracketing durations (inside "
-         "their hull); sorting + bracket search equals an order-free selection over the unsorted input; the builder rejects "
-         "every listed inconsistency class; the pragmatic reader routes a vehicle of profile p on the matrices named p when "
+         "their hull); sorting + bracket search equals an order-free selection over the unsorted input; every well-formed set "
+         "is accepted and served (well_formed_is_served) and the builder rejects every listed inconsistency class; the pragmatic reader routes a vehicle of profile p on the matrices named p when "
          "every matrix name is a fleet profile (S28: otherwise positional, witness proved); error codes > 0 give -1 entries; "
          "Euclidean and abstract haversine formulas are symmetric with zero diagonal. Tie: differential run of the real "
          "providers (public constructors and read_pragmatic) against the model and the specification evaluated on the "
